@@ -7,6 +7,8 @@ import NanoVerif.Model.ClipBox
 import NanoVerif.Model.PaintTree
 import NanoVerif.Model.Bitmap
 import NanoVerif.Model.Reorder
+import NanoVerif.Model.Naming
+import NanoVerif.Model.Csv
 /-
 Correspondence driver.  One JSON object per input line: {"op": ..., ...}; one JSON object per
 output line.  Run: `lake env lean --run Driver.lean < ops.jsonl`.
@@ -108,8 +110,29 @@ def getBConfig (j : Json) : Except String BConfig := do
   return ⟨← getInt (← field j "upem"), ← getInt (← field j "width"), ← getInt (← field j "ascender"),
           ← getInt (← field j "descender"), ← getInt (← field j "bitmap_resolution")⟩
 
+def strOf (l : List Char) : String := String.ofList l
+
 def dispatch (op : String) (j : Json) : Except String Json := do
   match op with
+  | "glyph-name" =>
+      let cps ← getNats (← field j "cps")
+      let h ← getStr (← field j "hash")
+      match glyphName (fun _ => h.toList) cps with
+      | some n => return obj [("name", Json.str (strOf n)), ("joined", Json.str (strOf (joinU (cps.map cpName))))]
+      | none => return obj [("err", Json.str "IndexError")]
+  | "from-filename" =>
+      let s ← getStr (← field j "name")
+      match fromFilename s.toList with
+      | some l => return obj [("cps", Json.arr (l.map fun n => Json.str (toString n)).toArray)]
+      | none => return obj [("err", Json.str "ValueError")]
+  | "csv-write" =>
+      let fields ← getStrs (← field j "row")
+      return obj [("line", Json.str (strOf (writeRow (fields.map String.toList))))]
+  | "csv-read" =>
+      let line ← getStr (← field j "line")
+      match readRow true line.toList with
+      | some r => return obj [("row", jStrs (r.map strOf))]
+      | none => return obj [("err", Json.str "Error")]
   | "sort-by-gid" =>
       let glyphs ← getStrs (← field j "glyphs")
       let order ← getStrs (← field j "order")
